@@ -178,12 +178,28 @@ const SEG_ALPHABET: [&[u8]; 12] =
 fn respell_bytes(rng: &mut Rng, decoded: &[u8], query: bool) -> Vec<u8> {
     // a random admissible spelling of decoded bytes
     let mut out = Vec::new();
-    for &c in decoded {
+    let mut skip = 0usize;
+    for (i, &c) in decoded.iter().enumerate() {
+        if skip > 0 {
+            skip -= 1;
+            continue;
+        }
+        if c >= 0xc2 {
+            // a multi-byte UTF-8 character may travel raw
+            let n = if c >= 0xf0 { 4 } else if c >= 0xe0 { 3 } else { 2 };
+            if i + n <= decoded.len() && std::str::from_utf8(&decoded[i..i + n]).is_ok() && rng.chance(1, 2) {
+                out.extend_from_slice(&decoded[i..i + n]);
+                skip = n - 1;
+                continue;
+            }
+        }
         let r = rng.below(10);
         if rs::unreserved(c) && r < 7 {
             out.push(c);
         } else if query && c == b' ' && r < 5 {
             out.push(b'+');
+        } else if r < 4 && crate::gen::raw_admissible(c, query) {
+            out.push(c);
         } else if r % 2 == 0 {
             out.extend_from_slice(format!("%{:02X}", c).as_bytes());
         } else {
@@ -228,8 +244,36 @@ pub fn helper_pieces(ctx: &mut Ctx) {
     ctx.rep.add("exhaustive.helper_cases", lines.len() as u64);
 }
 
+/// The path as the entry point sees it: reference-signed requests whose only unusual dimension is the path
+/// (segments of any bytes, raw or escaped spellings, dot/empty noise in standard mode, S3 mode, origin-form
+/// and absolute-form request targets) must validate.
+fn c09_e2e(ctx: &mut Ctx) {
+    use crate::gen::*;
+    use crate::props_validate::{accept_job, run_jobs, simple_logical};
+    let mut rng = ctx.rng.fork();
+    let mut jobs = Vec::new();
+    for k in 0..ctx.n(400, 8000) {
+        let donor = random_logical(&mut rng);
+        let mut l = simple_logical(if k % 2 == 0 { Carrier::Header } else { Carrier::Query }, 1_440_938_160_000_000_000);
+        l.segments = donor.segments;
+        l.trailing_slash = donor.trailing_slash;
+        l.s3 = donor.s3;
+        let mut sp = Spelling::plain();
+        sp.respell = k % 3 != 0;
+        sp.path_noise = k % 4 == 1;
+        let now = now_for(&l, 0);
+        let s = sign_and_spell(&l, &mut rng, &sp, now);
+        if ctx.rep.samples.len() < 9 && k < 3 {
+            ctx.rep.sample(format!("end to end: {} (s3={})", show(s.case.uri.as_bytes()), l.s3));
+        }
+        jobs.push(accept_job(&s, "c09-e2e", "C09: a request signed over the reference normal form of its path was refused (path spelling, request-target form or mode handling differs from the reference)"));
+    }
+    run_jobs(ctx, "VALIDATE", jobs);
+}
+
 pub fn c09(ctx: &mut Ctx) {
     helper_pieces(ctx);
+    c09_e2e(ctx);
     let mut tris = Vec::new();
     // (a) exhaustive: every byte literal (ASCII as is; high bytes inside a valid 2-byte sequence),
     // every %hh and %HH.
@@ -307,6 +351,14 @@ pub fn c09(ctx: &mut Ctx) {
                     }
                 })
                 .collect();
+            let mut seg = seg;
+            if rng.chance(1, 5) {
+                let at = rng.below(seg.len() + 1);
+                let ch: &[u8] = *rng.pick(&[&b"\xc3\xa9"[..], b"\xe1\x88\xb4", b"\xf0\x9f\x98\x80", b"\xc2\xa0"]);
+                for (k, b) in ch.iter().enumerate() {
+                    seg.insert(at + k, *b);
+                }
+            }
             segs.push(seg);
         }
         let s3 = rng.chance(1, 3);
@@ -381,6 +433,9 @@ pub fn c09(ctx: &mut Ctx) {
             p.push(b'/');
         }
         for _ in 0..l {
+            if rng.chance(1, 12) {
+                p.extend_from_slice("\u{e9}".as_bytes());
+            }
             p.push(*rng.pick(b"/.%+2eEfFa~!"));
         }
         tris.push(path_tri(&p, rng.chance(1, 3)));
@@ -422,11 +477,45 @@ fn qparse_tri(q: &[u8]) -> Tri {
 }
 
 const Q_ATOMS: [&[u8]; 16] = [
-    b"a=1", b"a=2", b"a-=1", b"a.=1", b"a0=1", b"a%21=1", b"A=1", b"=v", b"a=", b"a", b"a=b=c", b"a=1",
+    b"a=1", b"a=2", b"a-=1", b"a.=1", b"a0=1", b"a%21=1", b"A=1", b"=v", b"a=", b"a", b"a=b=c", b"?b=2",
     b"X-Amz-Signature=abc", b"X-Amz-%53ignature=d", b"b=%20+x", b"",
 ];
 
+/// The query as the entry point sees it: reference-signed requests whose only unusual dimension is the
+/// query (any bytes, repeated names, many parameters, '?' and other reserved characters raw, permuted,
+/// empty components) must validate.
+fn c10_e2e(ctx: &mut Ctx) {
+    use crate::gen::*;
+    use crate::props_validate::{accept_job, run_jobs, simple_logical};
+    let mut rng = ctx.rng.fork();
+    let mut jobs = Vec::new();
+    for k in 0..ctx.n(400, 8000) {
+        let donor = random_logical(&mut rng);
+        let mut l = simple_logical(if k % 2 == 0 { Carrier::Header } else { Carrier::Query }, 1_440_938_160_000_000_000);
+        l.query = donor.query;
+        if k % 7 == 0 {
+            for i in 0..(21 + rng.below(60)) {
+                l.query.push((format!("n{}", rng.below(4)).into_bytes(), format!("v{:03}", (i * 37) % 101).into_bytes()));
+            }
+        }
+        if k % 5 == 0 {
+            l.query.insert(0, (b"?first".to_vec(), b"1".to_vec()));
+        }
+        let mut sp = Spelling::plain();
+        sp.respell = k % 3 != 0;
+        sp.permute = k % 5 != 0 && k % 2 == 1;
+        let now = now_for(&l, 0);
+        let s = sign_and_spell(&l, &mut rng, &sp, now);
+        if ctx.rep.samples.len() < 9 && k < 3 {
+            ctx.rep.sample(format!("end to end: {}", show(s.case.uri.as_bytes())));
+        }
+        jobs.push(accept_job(&s, "c10-e2e", "C10: a request signed over the reference canonical query of its parameters was refused"));
+    }
+    run_jobs(ctx, "VALIDATE", jobs);
+}
+
 pub fn c10(ctx: &mut Ctx) {
+    c10_e2e(ctx);
     let mut tris = Vec::new();
     // (a) every sequence of up to k atoms (quick 3, thorough 4) — covers every permutation of them
     let k = ctx.n(3, 4);
@@ -458,7 +547,14 @@ pub fn c10(ctx: &mut Ctx) {
     for _ in 0..n {
         let np = rng.below(7);
         let mut pairs: Vec<(Vec<u8>, Vec<u8>)> = Vec::new();
-        let names: [&[u8]; 10] = [b"a", b"a-", b"a.", b"a0", b"a!", b"A", b"", b"b c", b"X-Amz-Signature", b"k\xc3\xa9"];
+        let names: [&[u8]; 13] = [b"a", b"a-", b"a.", b"a0", b"a!", b"A", b"", b"b c", b"X-Amz-Signature", b"k\xc3\xa9", b"?b", b"?", b"a?"];
+        if rng.chance(1, 12) {
+            // many pairs under few names with distinct values: beyond what small-slice sorting paths cover
+            let many = 21 + rng.below(70);
+            for i in 0..many {
+                pairs.push((format!("n{}", rng.below(4)).into_bytes(), format!("v{:03}", (i * 37) % 101).into_bytes()));
+            }
+        }
         for _ in 0..np {
             let name = if rng.chance(3, 4) { rng.pick(&names).to_vec() } else { (0..rng.below(4)).map(|_| rng.byte()).collect() };
             let value: Vec<u8> = if rng.chance(1, 2) {
@@ -533,6 +629,8 @@ pub fn c06(ctx: &mut Ctx) {
     let dates: Vec<(i32, u32, u32)> = vec![
         (1, 1, 1), (999, 12, 31), (1970, 1, 1), (2000, 2, 29), (2015, 8, 30), (2024, 2, 29), (2100, 2, 28),
         (9999, 12, 31), (1900, 3, 1), (2021, 1, 1), (0, 1, 1), (10000, 1, 1), (-1, 12, 31),
+        // days whose ISO week-based year differs from the calendar year
+        (2018, 12, 31), (2016, 1, 1), (2021, 1, 3), (2024, 12, 30), (2012, 1, 1), (2019, 12, 30),
     ];
     let strs: Vec<String> = vec!["".into(), "us-east-1".into(), "iam".into(), "é".into(), "区域".into(), " ".into(), "a/b".into(), "\u{0}".into()];
     let mut tris = Vec::new();
@@ -542,8 +640,16 @@ pub fn c06(ctx: &mut Ctx) {
         for r in 0..reps {
             let secret: String = if r == 0 {
                 "wJalrXUtnFEMI/K7MDENG/bPxRfiCYEXAMPLEKEY".chars().cycle().take(len).collect()
+            } else if r == 1 && len > 0 {
+                // NUL bytes are ordinary secret bytes: trailing, leading, or all of it
+                let z = 1 + rng.below(len.min(3));
+                match rng.below(3) {
+                    0 => (0..len).map(|i| if i >= len - z { '\0' } else { 'k' }).collect(),
+                    1 => (0..len).map(|i| if i < z { '\0' } else { 'k' }).collect(),
+                    _ => (0..len).map(|_| '\0').collect(),
+                }
             } else {
-                (0..len).map(|_| *rng.pick(b"abcXYZ019/+=") as char).collect()
+                (0..len).map(|_| *rng.pick(b"abcXYZ019/+=\0 \x7f") as char).collect()
             };
             let (y, m, d) = *rng.pick(&dates);
             let region = rng.pick(&strs).clone();
@@ -751,7 +857,8 @@ pub fn c16(ctx: &mut Ctx) {
         for k in 0..ctx.n(160, 1600) {
             let carrier = if k % 2 == 0 { Carrier::Header } else { Carrier::Query };
             // instants around midnight UTC so that local and UTC dates differ for most offsets
-            let t = (16677i128 * 86400 + [30i128, 86370, 43200, 600, 85800][k % 5]) * 1_000_000_000 + if k % 3 == 0 { 123_456_789 } else { 0 };
+            let day: i128 = [16677i128, 17896, 16677, 16801, 18628, 16677, 20088, 16802, 18992, 17897][k / 2 % 10];
+            let t = (day * 86400 + [30i128, 86370, 43200, 600, 85800][k % 5]) * 1_000_000_000 + if k % 3 == 0 { 123_456_789 } else { 0 };
             let mut l = simple_logical(carrier, t);
             l.time_style = (offs[k % offs.len()], (k * 7 % 128) as u8, if k % 4 == 1 { 1 + k % 11 } else { 0 });
             l.use_date_header = k % 10 == 4;
@@ -763,6 +870,68 @@ pub fn c16(ctx: &mut Ctx) {
             let mut j = job(s.case, Expect::Accept, "c16-carrier", "C16: a well-formed ISO-8601 timestamp, delivered by this carrier, was not accepted with its exact value");
             j.expect_calls = Some(1);
             jobs.push(j);
+        }
+        run_jobs(ctx, "VALIDATE", jobs);
+    }
+
+    // (h) the timestamp line the crate itself writes into the string-to-sign (prevalidate +
+    // get_string_to_sign, unstable API) for instants over the whole range, with the days around New Year
+    // (where week-based and calendar years differ) over-represented: crate vs model vs YYYYMMDD'T'hhmmss'Z'
+    {
+        let ny: [i64; 10] = [17896, 16801, 16802, 18628, 20088, 18992, 17897, 15705, 14975, 12418];
+        for k in 0..ctx.n(3000, 60000) {
+            let days = if k % 3 == 0 { *rng.pick(&ny) + rng.range(-3, 3) } else { rng.range(-719162, 2932896) };
+            let secs = days * 86400 + rng.range(0, 86399);
+            let nanos: i64 = if rng.chance(1, 2) { 0 } else { rng.range(0, 999_999_999) };
+            let ns = secs as i128 * 1_000_000_000 + nanos as i128;
+            let (compact, date) = rs::ref_compact(ns);
+            let cred = format!("AKID/{}/us-east-1/iam/aws4_request", date);
+            let imp_out = match imp::preval(&cred, (secs, nanos as u32), (secs, 0), "us-east-1", "iam") { Some(x) => x, None => continue };
+            let sts = format!("AWS4-HMAC-SHA256\n{}\n{}/us-east-1/iam/aws4_request\n{}", compact, date, "00".repeat(32));
+            tris.push(Tri {
+                op: "PREVAL",
+                line: format!("PREVAL {} {} {} {} {}", hx(cred.as_bytes()), ns, secs as i128 * 1_000_000_000, hx(b"us-east-1"), hx(b"iam")),
+                imp: Some(imp_out),
+                spec: Some(format!("OK {}", hx(sts.as_bytes()))),
+                class: "c16-string-to-sign-timestamp".into(),
+                clause: "the timestamp line of the string-to-sign (or the scope date demanded) is not the instant rendered as YYYYMMDD'T'hhmmss'Z' in UTC",
+                show: format!("instant {} ns ({})", ns, compact),
+            });
+        }
+        run_tris(ctx, std::mem::take(&mut tris));
+    }
+    // (i) extra bytes around a well-formed timestamp in a date header: only the surrounding spaces of a header
+    // value are forgiven; any other byte a header value may carry (tab, 0x85, 0xA0, ...) is the format error
+    {
+        use crate::gen::*;
+        use crate::props_validate::{job, run_jobs, simple_logical, Expect};
+        let mut jobs = Vec::new();
+        let bytes: Vec<u8> = (0u16..256).map(|b| b as u8).filter(|b| *b == 9 || (*b >= 0x20 && *b != 0x7f)).collect();
+        let stride = ctx.n(3, 1);
+        for (n, &b) in bytes.iter().enumerate() {
+            // always the whitespace look-alikes; the rest by stride in the quick tier
+            if !(n % stride == 0 || [9u8, 0x20, 0x85, 0xa0, 0x0c, b'Z', b'0', b'+'].contains(&b)) {
+                continue;
+            }
+            for before in [true, false] {
+                for use_date in [false, true] {
+                    let mut l = simple_logical(Carrier::Header, 1_440_938_160_000_000_000);
+                    l.use_date_header = use_date;
+                    l.time_style = (if n % 2 == 0 { 0 } else { -1800 }, (n % 32) as u8, 0);
+                    let now = now_for(&l, 0);
+                    let s = sign_and_spell(&l, &mut rng, &Spelling::plain(), now);
+                    let mut c = s.case;
+                    for (hn, v) in c.headers.iter_mut() {
+                        if hn.eq_ignore_ascii_case(if use_date { "date" } else { "x-amz-date" }) {
+                            if before { v.insert(0, b) } else { v.push(b) }
+                        }
+                    }
+                    let expect = if b == b' ' { Expect::Accept } else { Expect::Refuse(Some("IncompleteSignature")) };
+                    let mut j = job(c, expect, "c16-bytes-around-timestamp", "C16: a timestamp with an extra byte before or after it (other than the spaces surrounding a header value) must be the ISO-8601 format error (400); with surrounding spaces it is accepted");
+                    j.expect_calls = Some(if b == b' ' { 1 } else { 0 });
+                    jobs.push(j);
+                }
+            }
         }
         run_jobs(ctx, "VALIDATE", jobs);
     }
